@@ -405,6 +405,7 @@ Section SkiPack.
   Proof.
     intros [o e r v d c] (Ho & He & Hd). cbn [sk_owed sk_elapsed sk_od] in *.
     unfold ski_dec, ski_enc. cbn [sk_owed sk_elapsed sk_rdy sk_ov sk_od sk_oc].
+    rewrite !N.shiftr_div_pow2, !N.land_ones. change (2 ^ 1) with 2.
     fold (pk (2 ^ (8 * B)) d c).
     fold (pk 2 (b2n v) (pk (2 ^ (8 * B)) d c)).
     fold (pk 2 (b2n r) (pk 2 (b2n v) (pk (2 ^ (8 * B)) d c))).
@@ -412,10 +413,10 @@ Section SkiPack.
     fold (pk (2 ^ ws) o (pk (2 ^ we) e (pk 2 (b2n r) (pk 2 (b2n v) (pk (2 ^ (8 * B)) d c))))).
     rewrite (pk_mod (2 ^ ws)), (pk_div (2 ^ ws)) by exact Ho.
     rewrite (pk_mod (2 ^ we)), (pk_div (2 ^ we)) by exact He.
-    rewrite (pk_mod 2), (pk_div 2) by apply b2n_lt2.
-    rewrite (pk_mod 2), (pk_div 2) by apply b2n_lt2.
+    rewrite (pk_div 2) by apply b2n_lt2.
+    rewrite (pk_div 2) by apply b2n_lt2.
     rewrite (pk_mod (2 ^ (8 * B))), (pk_div (2 ^ (8 * B))) by exact Hd.
-    destruct r, v; reflexivity.
+    unfold pk. rewrite !odd_b2n_add_2. reflexivity.
   Qed.
 
   Lemma ski_wf_next : forall st v d c can r, d < 2 ^ (8 * B) -> ski_wf B we ws st ->
@@ -447,6 +448,7 @@ Section TxPack.
   Lemma txp_dec_enc : forall st, txp_wf we ws st -> txp_dec we ws (txp_enc we ws st) = st.
   Proof.
     intros [reg k] [Hl Hk]. cbn [tx_reg tx_ctc] in *. unfold txp_dec, txp_enc. cbn [tx_reg tx_ctc].
+    rewrite N.shiftr_div_pow2, N.land_ones.
     fold (pk (2 ^ 16) (bits2N reg) (ski_enc 4 we ws k)).
     assert (Hb : bits2N reg < 2 ^ 16).
     { pose proof (bits2N_bound reg) as H. rewrite Hl in H. exact H. }
